@@ -128,7 +128,7 @@ def run(ctx):
     drv = ctx.gobuild("lifecycle")
 
     # 3a. scripted store
-    na = ctx.pick(4000, 40000)
+    na = ctx.pick(4000, 100000)
     cases_a = _compose_a(comps, rng, na)
     vlib.write_ndjson(ctx.path("cases_a.ndjson"), cases_a)
     p = ctx.run([drv, "a", ctx.path("cases_a.ndjson"), ctx.path("trace_a.ndjson")], timeout=900)
